@@ -340,7 +340,7 @@ func TestVerifC08Filter(t *testing.T) {
 // TestVerifC08Ambiguity: a name matched by both the known-failing and the
 // known-flaky list is rejected by run(); disjoint lists are not.
 func TestVerifC08Ambiguity(t *testing.T) {
-	rep := verifkit.Begin("C08", "ambiguity", "random known-failing x known-flaky pattern pairs over the permutation names of a 3-test suite x 2 config cases, through run() with an unstartable server command; distinct = pattern pair")
+	rep := verifkit.Begin("C08", "ambiguity", "random known-failing x known-flaky pattern pairs over the permutation names of a 3-test suite x 3 config cases (incl. the gRPC-peer marked names), through run() with an unstartable server command; distinct = pattern pair")
 	defer rep.Write()
 	suite := &conformancev1.TestSuite{Name: "S", TestCases: []*conformancev1.TestCase{
 		{Request: &conformancev1.ClientCompatRequest{TestName: "u/one", StreamType: conformancev1.StreamType_STREAM_TYPE_UNARY}},
@@ -350,6 +350,8 @@ func TestVerifC08Ambiguity(t *testing.T) {
 	cases := []configCase{
 		{Version: 1, Protocol: 1, Codec: 1, Compression: 1, StreamType: 1},
 		{Version: 1, Protocol: 3, Codec: 1, Compression: 1, StreamType: 1},
+		// a gRPC case: its permutations also exist in a "(grpc client impl)"-marked form
+		{Version: 2, Protocol: 2, Codec: 1, Compression: 1, StreamType: 1},
 	}
 	lib, err := newTestCaseLibrary(map[string]*conformancev1.TestSuite{"s.yaml": suite}, cases, conformancev1.TestSuite_TEST_MODE_SERVER)
 	if err != nil {
@@ -428,6 +430,13 @@ func TestVerifC08Ambiguity(t *testing.T) {
 			rep.Count("shadowed_unmatched_error", 1) // trie shadowing between patterns of one list; not decided here
 			continue
 		}
+		onlyMarked := len(both) > 0
+		for _, nm := range both {
+			onlyMarked = onlyMarked && strings.Contains(nm, "(grpc ")
+		}
+		if onlyMarked {
+			rep.Count("ambiguous_only_on_grpc_marked_names", 1)
+		}
 		if len(both) > 0 {
 			rep.Count("ambiguous_sets", 1)
 			if !isAmb {
@@ -448,6 +457,7 @@ func TestVerifC08Ambiguity(t *testing.T) {
 	}
 	rep.Sample(map[string]any{"known_failing": []string{"S/**"}, "known_flaky": []string{"**/three"}, "expect": "rejected as ambiguous"})
 	rep.RequireMin("ambiguous_sets", 10)
+	rep.RequireMin("ambiguous_only_on_grpc_marked_names", 3)
 	rep.RequireMin("disjoint_sets", 10)
 }
 
